@@ -219,6 +219,21 @@ static void part_mt(int thorough) {
 			if (mlt >= maxd && pk > (long long)mlt + allowance) FAILM("mt-exceeds-memlimit_threading", "peak requested %lld exceeds memlimit_threading %llu although a single thread fits in it (need %llu)", pk, (unsigned long long)mlt, (unsigned long long)maxd);
 			(void)mu;
 			if (atomic_load(&live_n)) FAILM("leak", "%ld blocks live after lzma_end", atomic_load(&live_n)); } }
+	// idle output buffers kept for reuse count too: four 1 MiB Blocks with a 64 KiB dictionary, then one 1 MiB Block with an 8 MiB dictionary that fits the
+	// threading limit only after the cached buffers of the finished Blocks have been released
+	if ((unit++ % nsh) == sh) { static uint8_t zsrc[1 << 20], zfile[1 << 16], zout[5 << 20]; const uint32_t D5[5] = { 1 << 16, 1 << 16, 1 << 16, 1 << 16, 8 << 20 };
+		lzma_stream_flags sf = { .version = 0, .check = LZMA_CHECK_CRC32 }; lzma_stream_header_encode(&sf, zfile); size_t pos = 12; lzma_index *ix = lzma_index_init(NULL); int okb = 1;
+		for (int i = 0; i < 5 && okb; i++) { lzma_options_lzma o; lzma_lzma_preset(&o, 0); o.dict_size = D5[i]; lzma_filter f[2] = { { LZMA_FILTER_LZMA2, &o }, { LZMA_VLI_UNKNOWN, NULL } }; lzma_block b = { .version = 0, .check = LZMA_CHECK_CRC32, .filters = f };
+			if (lzma_block_buffer_encode(&b, NULL, zsrc, sizeof zsrc, zfile, &pos, sizeof zfile) != LZMA_OK) okb = 0; else lzma_index_append(ix, NULL, lzma_block_unpadded_size(&b), b.uncompressed_size); }
+		size_t ip = pos; if (okb && lzma_index_buffer_encode(ix, zfile, &ip, sizeof zfile) == LZMA_OK) { sf.backward_size = ip - pos; lzma_stream_footer_encode(&sf, zfile + ip); size_t fl = ip + 12;
+			lzma_options_lzma o; lzma_lzma_preset(&o, 0); o.dict_size = 8 << 20; lzma_filter f[2] = { { LZMA_FILTER_LZMA2, &o }, { LZMA_VLI_UNKNOWN, NULL } }; uint64_t need8 = lzma_raw_decoder_memusage(f);
+			for (int threads = 2; threads <= 4; threads++) { uint64_t mlt = need8 + (1 << 20) + (300 << 10);	// the big Block's filters + its own output buffer + bookkeeping
+				snprintf(desc, sizeof desc, "dicts=64K x4 then 8M, 1 MiB Blocks, threads=%d memlimit_threading=%llu", threads, (unsigned long long)mlt); H_CASE("c09 mt %s", desc); n_cases++;
+				lzma_stream s = LZMA_STREAM_INIT; s.allocator = &AL; reset_counters(); lzma_mt m = { .threads = (uint32_t)threads, .memlimit_threading = mlt, .memlimit_stop = UINT64_MAX };
+				if (lzma_stream_decoder_mt(&s, &m) != LZMA_OK) continue; s.next_in = zfile; s.avail_in = fl; s.next_out = zout; s.avail_out = sizeof zout; lzma_ret r = dcode(&s); long long pk = atomic_load(&peak_b); lzma_end(&s); n_nontrivial++;
+				if (r != LZMA_STREAM_END) FAILM("mt-result", "threaded decoder returned %d", r);
+				else if (pk > (long long)mlt + 200 * 1024) FAILM("mt-exceeds-memlimit_threading", "peak requested %lld exceeds memlimit_threading %llu (idle output buffers of finished Blocks must be released first)", pk, (unsigned long long)mlt); } }
+		lzma_index_end(ix, NULL); }
 }
 
 int main(int argc, char **argv) {
